@@ -686,13 +686,13 @@ func init() {
 				}
 			}
 			if tier == "thorough" {
-				out = append(out, cs("VH_C10", 1, 3, 1, 4, 0, 0), cs("VH_C10", 1, 2, 2, 3, 0, 0), cs("VH_C10", 1, 2, 2, 3, 2, 1))
+				out = append(out, cs("VH_C10", 1, 3, 1, 2, 0, 0), cs("VH_C10", 2, 3, 1, 2, 2, 1), cs("VH_C10", 1, 2, 2, 2, 0, 0), cs("VH_C10", 1, 2, 2, 2, 2, 1))
 			}
 			return out
 		},
 		boundsText: map[string]string{
 			"quick":    "2 goroutines x 1 operation each from {Push, Pop, Insert, Remove, Replace, Swap} on a mutex-enabled LIST of length 0..2, LIFO and FIFO, without capacity and with capacity n+1; every interleaving at lock-acquisition granularity (scheduler choices are decisions of the path search); index arguments symbolic in [-1, n+2]",
-			"thorough": "as quick with all 8 mutators and length 0..3; plus 3 goroutines x 1 operation from {Push, Pop, Insert, Remove} and 2 goroutines x 2 operations from {Push, Pop, Insert} on a stack of length 1",
+			"thorough": "as quick with all 8 mutators and length 0..3; plus 3 goroutines x 1 operation from {Push, Pop} and 2 goroutines x 2 operations from {Push, Pop} on stacks of length 1-2",
 		},
 		outside: "free-running executions on 16 cores and weak-memory effects (the engine is sequentially consistent and pre-empts only at lock points; unsynchronised accesses between lock points are reported by the lockset log instead and confirmed natively under the Go race detector); index options; more goroutines or longer sequences",
 		assumptions: []string{"context switches only just before sync.Mutex.Lock, after sync.Mutex.Unlock, at goroutine end and in the join", "lockset discipline: two accesses to the same shared cell from different goroutines, at least one a write, not both made while holding a mutex, are a race candidate"},
